@@ -256,11 +256,19 @@ Definition digits_value (s : str) : Z := fold_left (fun acc a => 10 * acc + (cod
 
 (* [-]digits[.digits]  ->  (negative?, numerator, number of fraction digits):
    the value is (-1)^neg * numerator / 10^fraction *)
-Definition read_decimal (s : str) : option (bool * Z * nat) :=
-  let '(neg, body) := match s with "-"%char :: r => (true, r) | _ => (false, s) end in
+Definition strip_minus (s : str) : bool * str :=
+  match s with
+  | a :: r => if Ascii.eqb a "-" then (true, r) else (false, s)
+  | [] => (false, s)
+  end.
+
+Definition read_body (neg : bool) (body : str) : option (bool * Z * nat) :=
   let '(ip, fp) := match cut_at "." body with Some x => x | None => (body, []) end in
   if negb (forallb is_digit ip && forallb is_digit fp) then None
   else match ip with
        | [] => None
        | _ => Some (neg, digits_value (ip ++ fp), List.length fp)
        end.
+
+Definition read_decimal (s : str) : option (bool * Z * nat) :=
+  let '(neg, body) := strip_minus s in read_body neg body.
